@@ -74,6 +74,23 @@ def check(tier: str) -> Result:
         if not stores:
             raise AnalysisError(f"{env}.__init__: no assignment to self.time_limit found")
         P = params["time_limit"]
+        # branch form: `if time_limit: self.time_limit = time_limit` / `else: self.time_limit = <default>` -- two stores under
+        # complementary tests on the argument are the selection `time_limit if time_limit else <default>`
+        if len(stores) == 2:
+            from .common import norm_path as _np2
+            def _ptest(e_):
+                ts_ = [(t_, pol_) for t_, pol_, _f in _np2(e_.path) if t_ is P or (t_.kind == "cmp" and t_.args[0] == "is" and t_.args[1] is P and t_.args[2] is NONE)]
+                return ts_[0] if len(ts_) == 1 else None
+            pa, pb = _ptest(stores[0]), _ptest(stores[1])
+            if pa is not None and pb is not None and pa[0] is pb[0] and pa[1] != pb[1]:
+                def _given(pt):     # the path on which the argument was given (truthy / not None)
+                    t_, pol_ = pt
+                    return pol_ if t_ is P else (not pol_)
+                given, dflt_e = (stores[0], stores[1]) if _given(pa) else (stores[1], stores[0])
+                if strip_cast(given.value) is P and strip_cast(dflt_e.value) is not P:
+                    res.add("C11.R1", given.loc(), f"{env}.__init__", "self.time_limit <- time_limit", True,
+                            f"time_limit when it is given, {txt(strip_cast(dflt_e.value), 3, 50)} otherwise (two stores under complementary tests)")
+                    stores = []
         for e in stores:
             v = strip_cast(e.value)
             ok = None
